@@ -377,6 +377,9 @@ inductive Ref where
   | dflt                -- `protocol.DEFAULT_CONFIG`
   | app (n : Nat)       -- a settings dict object of the application (passed as `config=`; literal dicts are fresh ones)
   | own (i : Nat)       -- the dict object `Connection.__init__` creates for connection `i`
+  | srv (k : Nat)       -- the `protocol_config` dict object server `k` creates for itself when it is given none
+  | srvShared           -- ONE dict object shared by all servers given none (a mutable default argument; bad variant)
+  | tmp (i : Nat)       -- the per-client dict a server builds (`dict(self.protocol_config, credentials=.., ..)`)
   deriving DecidableEq, Repr, Inhabited
 
 /-- the value stored under `"safe_attrs"`: a REFERENCE to the module's default set object (shared by everything that
@@ -443,9 +446,12 @@ structure HWorld where
   /-- content of the ONE set object `DEFAULT_CONFIG["safe_attrs"]` refers to -/
   dfltSet : List PyStr
   conns : Nat → HConn
+  /-- `server_k.protocol_config`: which dict object server `k` holds (`none`: no such server) -/
+  servers : Nat → Option Ref
 
 def HWorld.init : HWorld :=
-  { dicts := fun | .dflt => defaultDict | _ => HDict.empty, dfltSet := defaultConfig.safe, conns := fun _ => .fresh }
+  { dicts := fun | .dflt => defaultDict | _ => HDict.empty, dfltSet := defaultConfig.safe, conns := fun _ => .fresh,
+    servers := fun _ => none }
 
 def lookB (dicts : Ref → HDict) : List Ref → BKey → Option Bool
   | [], _ => none
@@ -508,10 +514,14 @@ structure ClassicMode where
 structure Modes where
   init : InitMode
   classic : ClassicMode
+  /-- `Server.__init__` without a `protocol_config` makes a dict object of its own (measured: two such servers hold
+  distinct objects); `false`: they all hold one shared object -/
+  serversOwnDict : Bool
   deriving DecidableEq, Repr, Inhabited
 
 /-- the variant the property needs -/
-def Modes.good : Modes := { init := .copy, classic := { writesCallerDict := false, addsToSafe := [] } }
+def Modes.good : Modes :=
+  { init := .copy, classic := { writesCallerDict := false, addsToSafe := [] }, serversOwnDict := true }
 
 /-- the variant measured on the live code -/
 def Modes.measured : Modes :=
@@ -521,7 +531,8 @@ def Modes.measured : Modes :=
       | 2 => .aliasArg
       | _ => .layered,
     classic := { writesCallerDict := Gen.Policy.classicWritesCallerDict,
-                 addsToSafe := Gen.Policy.classicAddsToSafeCp } }
+                 addsToSafe := Gen.Policy.classicAddsToSafeCp },
+    serversOwnDict := Gen.Policy.serversOwnDict }
 
 /-- the classic-mode overrides as a dict -/
 def slaveDict : HDict := HDict.ofOverlay slaveOverlay
@@ -532,13 +543,13 @@ def HWorld.setDict (w : HWorld) (r : Ref) (d : HDict) : HWorld :=
 def HWorld.setConn (w : HWorld) (i : Nat) (c : HConn) : HWorld :=
   { w with conns := fun k => if k = i then c else w.conns k }
 
-/-- `Connection.__init__(root, channel, D)` for connection `i`, `D = app d` -/
-def initConn (m : InitMode) (w : HWorld) (i d : Nat) : HWorld × List Ref :=
+/-- `Connection.__init__(root, channel, D)` for connection `i`, `D` the dict object `arg` -/
+def initConn (m : InitMode) (w : HWorld) (i : Nat) (arg : Ref) : HWorld × List Ref :=
   match m with
-  | .copy => (w.setDict (.own i) ((w.dicts .dflt).update (w.dicts (.app d))), [.own i])
-  | .aliasDefault => (w.setDict .dflt ((w.dicts .dflt).update (w.dicts (.app d))), [.dflt])
-  | .aliasArg => (w.setDict (.app d) ((w.dicts .dflt).update (w.dicts (.app d))), [.app d])
-  | .layered => (w.setDict (.own i) HDict.empty, [.own i, .app d, .dflt])
+  | .copy => (w.setDict (.own i) ((w.dicts .dflt).update (w.dicts arg)), [.own i])
+  | .aliasDefault => (w.setDict .dflt ((w.dicts .dflt).update (w.dicts arg)), [.dflt])
+  | .aliasArg => (w.setDict arg ((w.dicts .dflt).update (w.dicts arg)), [arg])
+  | .layered => (w.setDict (.own i) HDict.empty, [.own i, arg, .dflt])
 
 /-- in-place growth of the set object the chain's `"safe_attrs"` refers to -/
 def addToSafe (w : HWorld) (ch : List Ref) (names : List PyStr) : HWorld :=
@@ -554,16 +565,28 @@ def headRef : List Ref → Ref
   | r :: _ => r
   | [] => .dflt
 
-/-- `Service._connect(channel, D)` for connection `i` with the application's dict object `app d`; `classic`: the local
-service is `SlaveService` (or `ClassicService`) -/
-def openConn (m : Modes) (w : HWorld) (i d : Nat) (classic : Bool) : HWorld :=
+/-- `Service._connect(channel, D)` for connection `i` with the dict object `arg`; `classic`: the local service is
+`SlaveService` (or `ClassicService`) -/
+def openConn (m : Modes) (w : HWorld) (i : Nat) (arg : Ref) (classic : Bool) : HWorld :=
   let w0 := if classic && m.classic.writesCallerDict then
-      w.setDict (.app d) ((w.dicts (.app d)).update slaveDict) else w
-  let (w1, ch) := initConn m.init w0 i d
+      w.setDict arg ((w.dicts arg).update slaveDict) else w
+  let (w1, ch) := initConn m.init w0 i arg
   let w2 := if classic && !m.classic.writesCallerDict then
       w1.setDict (headRef ch) ((w1.dicts (headRef ch)).update slaveDict) else w1
   let w3 := if classic then addToSafe w2 ch m.classic.addsToSafe else w2
   w3.setConn i (.live ch)
+
+/-- the dict object a new server holds: the caller's if it gave one (documented sharing), else its own — or, in the
+bad variant, the one shared default -/
+def serverRef (m : Modes) (k : Nat) : Option Nat → Ref
+  | some d => .app d
+  | none => if m.serversOwnDict then .srv k else .srvShared
+
+/-- dict objects application code can get hold of and edit -/
+def Ref.editable : Ref → Bool
+  | .own _ => false
+  | .tmp _ => false
+  | _ => true
 
 inductive HEvent where
   | open (i d : Nat) (classic : Bool)    -- establish connection i with dict object `app d`
@@ -571,26 +594,30 @@ inductive HEvent where
   | access (i : Nat)                     -- connection i serves attribute requests (TRUSTED: a request writes no config object)
   | editDict (r : Ref) (ov : Overlay)    -- the application runs `R.update(ov)` on one of ITS dict objects (or on DEFAULT_CONFIG)
   | mutDfltSet (names : List PyStr)      -- somebody grows the default `safe_attrs` set object IN PLACE
+  | newServer (k : Nat) (d : Option Nat) -- `Server(service, protocol_config=D)` / `Server(service)` (it writes `logger` into its dict: not a modelled key)
+  | serverConn (i k : Nat) (classic : Bool)  -- server k accepts a client: `dict(protocol_config, ..)`, then `service._connect`
+  | editServer (k : Nat) (ov : Overlay)  -- the application runs `server_k.protocol_config.update(ov)` after construction
   deriving DecidableEq, Repr, Inhabited
 
 def HEvent.conn : HEvent → Option Nat
   | .open i _ _ => some i
   | .close i => some i
   | .access i => some i
-  | .editDict _ _ => none
-  | .mutDfltSet _ => none
+  | .serverConn i _ _ => some i
+  | _ => none
 
 /-- events the application is entitled to and rpyc itself never performs on another party's behalf: it edits dict
-objects it owns (or the module defaults), never a connection's private `_config`, and nobody grows the shared set -/
+objects it owns (the module defaults, its settings dicts, its servers' `protocol_config`), never a connection's
+private `_config` nor a server's per-client dict, and nobody grows the shared set -/
 def HEvent.fair : HEvent → Bool
-  | .editDict (.own _) _ => false
+  | .editDict r _ => r.editable
   | .mutDfltSet _ => false
   | _ => true
 
 def hstep (m : Modes) (w : HWorld) : HEvent → HWorld
   | .open i d classic =>
     match w.conns i with
-    | .fresh => openConn m w i d classic
+    | .fresh => openConn m w i (.app d) classic
     | _ => w
   | .close i =>
     match w.conns i with
@@ -599,6 +626,18 @@ def hstep (m : Modes) (w : HWorld) : HEvent → HWorld
   | .access _ => w
   | .editDict r ov => w.setDict r ((w.dicts r).update (HDict.ofOverlay ov))
   | .mutDfltSet names => { w with dfltSet := w.dfltSet ++ names }
+  | .newServer k d =>
+    match w.servers k with
+    | none => { w with servers := fun x => if x = k then some (serverRef m k d) else w.servers x }
+    | some _ => w
+  | .serverConn i k classic =>
+    match w.conns i, w.servers k with
+    | .fresh, some r => openConn m (w.setDict (.tmp i) (w.dicts r)) i (.tmp i) classic
+    | _, _ => w
+  | .editServer k ov =>
+    match w.servers k with
+    | some r => if r.editable then w.setDict r ((w.dicts r).update (HDict.ofOverlay ov)) else w
+    | none => w
 
 def hrun (m : Modes) (w : HWorld) : List HEvent → HWorld
   | [] => w
